@@ -2,7 +2,7 @@
    Theorems about the operand-resolution functions of the visitor model (Lang/Unroll.v), which is
    tied to /repo by the correspondence run of ./check C02.  Stated for all sizes and bounds. *)
 From Coq Require Import ZArith List Bool String.
-From Verif Require Import BGate PyVal Ast State Unroll ResolveProofs Depth DepthModel FixProofs LoopProofs BroadcastProofs.
+From Verif Require Import BGate PyVal Ast State Unroll ResolveProofs Depth DepthModel FixProofs ParamProofs LoopProofs BroadcastProofs.
 Import ListNotations.
 Open Scope Z_scope.
 
@@ -133,6 +133,12 @@ Theorem C02_index_set_designates_its_elements_in_order m r n zs : sget r m = Som
   if forallb (in_size n) zs then Some (map (fun i => (r, i)) zs) else None.
 Proof. exact (opnd_bits_index_set m r n zs). Qed.
 Print Assumptions C02_index_set_designates_its_elements_in_order.
+
+(* an index that is a closed expression designates the bit its folded value names (a boolean as 0 / 1), or nothing when that is outside *)
+Theorem C02_closed_index_designates_its_value m r n e v i : sget r m = Some n -> ceval e = Some v -> idx_of v = Some i ->
+  opnd_bits m (QIdx r [IdxList [IExpr e]]) = if in_size n i then Some [(r, i)] else None.
+Proof. exact (opnd_bits_closed_index m r n e v i). Qed.
+Print Assumptions C02_closed_index_designates_its_value.
 
 Theorem C02_stepped_slice_designates_the_range m r n a b st bits : sget r m = Some n ->
   opnd_bits m (QIdx r [IdxList [IRange (Some (ELit (VInt a))) (Some (ELit (VInt b))) (Some (ELit (VInt st)))]]) = Some bits ->
